@@ -64,7 +64,7 @@ CacheSound  == \A c \in CachedAttrs : cache[c] # Unset => cache[c] = Fresh(req, 
 LookupSound == last.a = "get_header" => last.o = Lookup(req, last.hn)
 
 F(a) == Fresh(req, a)
-OutcomeShape == \A a \in Attrs : F(a).k \in {"value", "any", "doc400"}
+OutcomeShape == \A a \in Attrs : F(a).k \in {"value", "any", "doc400", "value400"}
 RangeWellFormed ==
     LET o == F("range") IN (IsVal(o) /\ o.s = "#i") =>
         /\ Len(o.i) = 2
